@@ -28,6 +28,7 @@ type COp struct {
 	Op string `json:"op"`
 	S  string `json:"s"`
 	K  string `json:"k"`
+	Ctx string `json:"ctx,omitempty"` // create: "nil" (the parent scope's context) or "bg" (a context of its own)
 	T  string `json:"t,omitempty"`  // explicit identity (random programs over random registration sets)
 	TK string `json:"tk,omitempty"`
 }
@@ -260,7 +261,11 @@ func runThreadOp(th string, o COp) {
 			R.mu.Lock()
 			R.creating[goid()] = newName
 			R.mu.Unlock()
-			s, err := tg.CreateScope(nil)
+			var cctx context.Context
+			if o.Ctx == "bg" {
+				cctx = context.Background()
+			}
+			s, err := tg.CreateScope(cctx)
 			ret["err"] = classify(err)
 			R.mu.Lock()
 			delete(R.creating, goid())
@@ -444,6 +449,18 @@ func concScenario(sc *CScenario, run int) (orderDrift bool) {
 		<-S.arrive
 	}
 	emit(M{"ev": "joined"})
+	// ---- every scope a thread created is used once more: a descendant of a scope that has been closed must
+	// refuse (closing a scope closes all its descendants, also those created while it was being closed)
+	for _, n := range names {
+		if sc.Ops[n].Op == "create" {
+			R.mu.Lock()
+			_, ok := R.scopes["n_"+n]
+			R.mu.Unlock()
+			if ok {
+				doOp(&Op{Op: "resolve", Sc: "n_" + n, T: "scope", K: "-"})
+			}
+		}
+	}
 	// ---- final accounting: close the provider sequentially, then observe
 	doOp(&Op{Op: "closeprov"})
 	doObs(g0)
